@@ -30,6 +30,17 @@ def gen_base(r):
             rules.append(("rule", r.choice(["initial", "always"]), ("tel", gen.gen_hform(r, r.randint(1, 2), ATOMS)), body))
     if r.random() < 0.3:
         rules.append(("rule", "always", ("falsum",), (("del", "pos", gen.gen_dform(r, 1, ATOMS)),)))
+    if r.random() < 0.3:
+        # two rules whose head formulas are two spellings of one formula, with different bodies
+        fa, fb = gen.alias_pair(r, ATOMS, head=True, depth=r.randint(0, 1))
+        part = r.choice(["initial", "always"])
+        rules.append(("rule", part, ("tel", fa), (("atom", "pos", "a", 0),)))
+        rules.append(("rule", part, ("tel", fb), (("atom", "pos", "b", 0),)))
+    if r.random() < 0.25:
+        fa, fb = gen.alias_pair(r, ATOMS, depth=r.randint(0, 1))
+        part = r.choice(["initial", "always", "dynamic"])
+        rules.append(("rule", part, ("atom", "u", 0), (("tel", "notnot", fa),)))
+        rules.append(("rule", part, ("atom", "v", 0), (("tel", "not", fb),)))
     return rules
 
 def variants(r, rules):
@@ -56,13 +67,13 @@ def _chunk(args):
     for i in range(n):
         rules = gen_base(r)
         base_text = tl.render_prog(rules)
-        ref = oracles.impl_models([base_text], H)
+        ref = oracles.impl_models([base_text], H, dedup=True)
         if ref[0] == "err" and ref[1] not in ("RuntimeError", "ClingoError"):
             fails.append({"kind": "exception", "text": base_text, "error": ref[1], "message": ref[2]})
             continue
         for desc, files in variants(r, rules):
             nvar += 1
-            got = oracles.impl_models(files, H)
+            got = oracles.impl_models(files, H, dedup=True)
             if (got[0], got[1]) != (ref[0], ref[1]):
                 fails.append({"kind": "layout", "variant": desc, "text": base_text + "\n%%% versus (" + desc + ")\n" + "\n%%% next file\n".join(files),
                               "input": [[base_text], files], "reference": str(ref)[:400], "got": str(got)[:400]})
